@@ -84,6 +84,9 @@ static int resp_append(KSI_LIST(KSI_OctetString) *l, KSI_OctetString *o) {
 	return KSI_OK;
 }
 
+#ifndef GHOST_TCP_MAX_REQ
+#define GHOST_TCP_MAX_REQ 4      /* serialized requests of the model are at most this long (bounded jobs) */
+#endif
 /* reqQueue model: head request is g_req while g_q_len > 0 */
 size_t g_q_len;
 struct KSI_AsyncHandle_st g_req;
@@ -101,7 +104,8 @@ static int req_remove(KSI_LIST(KSI_AsyncHandle) *l, size_t pos, KSI_AsyncHandle 
 	g_q_len--; g_q_removed++;
 	/* the next head: an arbitrary fresh request */
 	g_req.state = nondet_int(); g_req.len = nondet_size(); g_req.sentCount = 0; g_req.reqTime = nondet_ll();
-	g_req_raw_p = malloc(1); __CPROVER_assume(g_req_raw_p != NULL);
+	__CPROVER_assume(g_req.len <= GHOST_TCP_MAX_REQ);
+	g_req_raw_p = malloc(GHOST_TCP_MAX_REQ); __CPROVER_assume(g_req_raw_p != NULL);
 	g_req_len0 = g_req.len; g_req.raw = g_req_raw_p;
 	return KSI_OK;
 }
